@@ -23,3 +23,23 @@ Print Assumptions C02_trailer_eq_rfc.
 
 Example C02_premises : kind_matches 24 (SSubkey [4; 1] [4; 2]) = true /\ wf_subject (SSubkey [4; 1] [4; 2]).
 Proof. split; [reflexivity|]. cbn. unfold wf_keybody. cbn. lia. Qed.
+
+(* ---------- per-algorithm encoding of the signature value ---------- *)
+Require Import PV.Model.SigEncoding PV.Spec.Der PV.Proofs.SigEncoding_lemmas.
+
+(* DSASignature.from_signer (a hand-rolled DER reader) inverts the DER encoding of two non-negative integers,
+   including long-form lengths *)
+Theorem C02_dsa_der_roundtrip : forall r s, der_ok r -> der_ok s ->
+  Z.of_nat (length (der_uint r ++ der_uint s)) < 4294967296 ->
+  dsa_from_signer (der_seq2 r s) = Some (r, s).
+Proof. exact dsa_der_roundtrip. Qed.
+Print Assumptions C02_dsa_der_roundtrip.
+
+(* EdDSA: splitting the 64-octet signature into two integers and writing them back to 32 octets each is the identity *)
+Theorem C02_eddsa_split_join : forall sig r s, wf_bytes sig -> length sig = 64%nat ->
+  eddsa_from_signer sig = Some (r, s) -> eddsa_sig r s = sig.
+Proof. exact eddsa_split_join. Qed.
+Print Assumptions C02_eddsa_split_join.
+
+Example C02_der_premises : der_ok 255 /\ dsa_from_signer (der_seq2 255 1) = Some (255, 1).
+Proof. split; [split; [lia|vm_compute; reflexivity]|vm_compute; reflexivity]. Qed.
